@@ -7,7 +7,7 @@
    function of (instance, actions) only: [run cfg i (reset i) acts]. *)
 From Coq Require Import ZArith List Bool Arith Permutation.
 From RL4CO Require Import Base.FFSPLists Spec.Schedule Spec.FlowShop Env.FFSP Env.FFSPProofs Env.SMTWTP Env.SchedBatch2 Harness.HC07_ffsp.
-From RL4CO Require Import Env.FJSP Env.FJSPProofs Env.SchedBatch.
+From RL4CO Require Import Env.FJSP Env.FJSPProofs Env.SchedBatch Env.SchedStepwise.
 Import ListNotations.
 Open Scope nat_scope.
 
@@ -53,6 +53,56 @@ Theorem C03_valid_scheduleb_decides :
   forall (I : sinst) (es : list entry) (mk : Z), valid_scheduleb I es mk = true <-> valid_schedule I es mk.
 Proof. exact valid_scheduleb_iff. Qed.
 Print Assumptions C03_valid_scheduleb_decides.
+
+(* ================================================================ FJSPEnv / JSSPEnv constructed with stepwise_reward = True *)
+(* _step then stores the DENSE reward  td["reward"] = -(lbs.max(1) - td["lbs"].max(1)),  lbs = calc_lower_bound(td): minus the
+   change of the largest lower bound on an operation's finish time.  The statement of C03 for this mode: for ANY potential
+   LB : st -> Z on the states of the row model (the real one is calc_lower_bound's maximum; nothing about its shape is
+   used), every instance, both values of mask_no_ops and every mask-confined action list (waits and post-finish padding
+   included): [tr] being the states after each step,
+       LB(reset) - (sum of the step rewards  -(LB tr_k - LB tr_(k-1)))  =  LB(final state),
+   and when the row is finished and LB(final state) is the makespan mk of the (valid) induced schedule -- which is what
+   calc_lower_bound's own assert says (LB = finish time of every scheduled operation) and what the correspondence checks
+   on every run -- the initial lower bound minus the sum of the step rewards IS that makespan, i.e. minus the sparse reward. *)
+Theorem C03_fjsp_stepwise_rewards_telescope_to_makespan :
+  forall (LB : st -> Z) (cfg : bool) (i : inst) (acts : list nat),
+    wfb i = true -> solvableb i = true -> admb cfg i (reset i) acts = true ->
+    exists (tr : list st) (s : st),
+      trace cfg i (reset i) acts = Some tr /\ length tr = length acts /\ last tr (reset i) = s /\
+      run cfg i (reset i) acts = Some s /\
+      (LB (reset i) - zsum (sw_rewards st LB (reset i) tr))%Z = LB s /\
+      (done s = true ->
+       exists mk : Z, reward i s = Some (- mk)%Z /\ valid_schedule (sinst_of i) (schedule_of s) mk /\
+         (LB s = mk -> (LB (reset i) - zsum (sw_rewards st LB (reset i) tr))%Z = mk)).
+Proof. exact fjsp_stepwise_telescopes. Qed.
+Print Assumptions C03_fjsp_stepwise_rewards_telescope_to_makespan.
+
+Theorem C03_jssp_stepwise_rewards_telescope_to_makespan :
+  forall (LB : st -> Z) (cfg : bool) (i : inst) (acts : list nat),
+    wfb i = true -> jssp_wfb i = true -> jssp_admb cfg i (reset i) acts = true ->
+    exists (tr : list st) (s : st),
+      jssp_trace cfg i (reset i) acts = Some tr /\ length tr = length acts /\ last tr (reset i) = s /\
+      jssp_run cfg i (reset i) acts = Some s /\
+      (LB (reset i) - zsum (sw_rewards st LB (reset i) tr))%Z = LB s /\
+      (done s = true ->
+       exists mk : Z, reward i s = Some (- mk)%Z /\ valid_schedule (sinst_of i) (schedule_of s) mk /\
+         (LB s = mk -> (LB (reset i) - zsum (sw_rewards st LB (reset i) tr))%Z = mk)).
+Proof. exact jssp_stepwise_telescopes. Qed.
+Print Assumptions C03_jssp_stepwise_rewards_telescope_to_makespan.
+
+(* the identity itself, for any state space and any potential: the rewards along s -> tr_1 -> tr_2 -> ... telescope *)
+Theorem C03_stepwise_rewards_telescope :
+  forall (State : Type) (LB : State -> Z) (tr : list State) (s : State),
+    (LB s - zsum (sw_rewards State LB s tr))%Z = LB (last tr s).
+Proof. exact sw_telescope. Qed.
+Print Assumptions C03_stepwise_rewards_telescope.
+
+(* post-finish padding steps earn reward 0 under any potential (a finished row is not changed by a step) *)
+Theorem C03_fjsp_stepwise_padding_reward_zero :
+  forall (LB : st -> Z) (cfg : bool) (i : inst) (s : st) (a : nat),
+    done s = true -> exists s' : st, step cfg i s a = Some s' /\ sw_reward st LB s s' = 0%Z.
+Proof. exact fjsp_stepwise_padding_reward_zero. Qed.
+Print Assumptions C03_fjsp_stepwise_padding_reward_zero.
 
 (* ================================================================ FFSP *)
 (* the reward written once every row is done is minus the makespan of the row's (valid) flow-shop schedule *)
@@ -133,3 +183,16 @@ Example C03_sched_nonvacuous :
   | None => False end /\
   SMTWTP.reward SMTWTP.ex_i [2; 3; 1] = (-9)%Z.
 Proof. vm_compute. repeat split. Qed.
+
+(* stepwise_reward = True: a concrete potential (finish time once scheduled, cheapest processing time before) on the example
+   episode: lower bounds 3, 3, 3, 5, 5, step rewards 0, 0, -2, 0, and 3 - (-2) = 5 = the makespan = minus the sparse reward *)
+Example C03_stepwise_nonvacuous :
+  wfb ex_i = true /\ solvableb ex_i = true /\ admb true ex_i (reset ex_i) [1; 4; 2; 0] = true /\
+  match trace true ex_i (reset ex_i) [1; 4; 2; 0] with
+  | Some tr => map (ex_LB ex_i) (reset ex_i :: tr) = [3; 3; 3; 5; 5]%Z /\
+               sw_rewards st (ex_LB ex_i) (reset ex_i) tr = [0; 0; -2; 0]%Z /\
+               (ex_LB ex_i (reset ex_i) - zsum (sw_rewards st (ex_LB ex_i) (reset ex_i) tr))%Z = 5%Z /\
+               reward ex_i (last tr (reset ex_i)) = Some (-5)%Z
+  | None => False
+  end.
+Proof. exact stepwise_example. Qed.
